@@ -1,9 +1,154 @@
-(* C01 — osu!mania read/write.  Property theorems only. *)
+(* C01 — osu!mania .osu read/write.  Property theorems only: each is closed by [exact] from
+   Proofs/OsuProofs.v, or is a finite table obligation re-checked by computation against
+   Generated/Tables.v (regenerated from the live code on every run). *)
 From Coq Require Import String Ascii.
 From Coq Require Import ZArith QArith Qround Qabs List Bool.
 From RV Require Import Base.PyNum Base.Text Formats.Osu Formats.OsuSpec Generated.Tables Proofs.OsuProofs.
 Import ListNotations.
 Open Scope Z_scope.
 
+(* ---- table obligations (live interpreter / live reamber functions = the constants the model uses) ---- *)
 Theorem C01_tables_whitespace : Tables.c01.py_space = Text.py_space.
 Proof. vm_compute. reflexivity. Qed.
+Theorem C01_tables_colw : Tables.c01.colw = colw_table.
+Proof. vm_compute. reflexivity. Qed.
+(* exhaustive: OsuNoteMeta.x_axis_to_column(x, keys) for keys 1..18, x_lo <= x < x_hi equals the model *)
+Theorem C01_tables_xcol :
+  map (fun k => map (fun x => x_to_col x k) (zrange Tables.c01.x_lo (Z.to_nat (Tables.c01.x_hi - Tables.c01.x_lo)))) keys_range
+  = Tables.c01.xcol.
+Proof. vm_compute. reflexivity. Qed.
+Theorem C01_tables_colx :
+  map (fun k => map (fun c => col_to_x c k) (zrange 0 (Z.to_nat k))) keys_range = Tables.c01.colx.
+Proof. vm_compute. reflexivity. Qed.
+Theorem C01_tables_sampleset :
+  Tables.c01.sampleset_names = sampleset_names /\ Tables.c01.sampleset_invalid = sampleset_from_string (t "nonsense").
+Proof. vm_compute. split; reflexivity. Qed.
+
+(* ---- column <-> x, every key count 1..18, EVERY integer x ---- *)
+Theorem C01_x_col_inverse : forall k c, 1 <= k <= 18 -> 0 <= c < k -> x_to_col (col_to_x c k) k = c.
+Proof. exact x_col_inverse. Qed.
+Theorem C01_col_to_x_in_range : forall k c, 1 <= k <= 18 -> 0 <= c < k -> in_column_range (col_to_x c k) c k.
+Proof. exact col_to_x_in_range. Qed.
+Theorem C01_col_to_x_centre : forall c k, 0 < k -> col_to_x c k = centre_of c k.
+Proof. exact col_to_x_centre. Qed.
+(* full statement "every x inside a column's range maps to that column" is false: *)
+Theorem C01_x_in_range_col_refuted :
+  exists k x c, 1 <= k <= 18 /\ 0 <= c < k /\ in_column_range x c k /\ x_to_col x k <> c.
+Proof. exact x_in_range_col_refuted. Qed.
+(* and holds for every integer x under the guard excluding that single point *)
+Theorem C01_x_in_range_col : forall k x c, 1 <= k <= 18 -> 0 <= c < k -> in_column_range x c k ->
+  ~ (k = 10 /\ x = 256) -> x_to_col x k = c.
+Proof. exact x_in_range_col. Qed.
+Theorem C01_x_to_col_exact : forall k x, 1 <= k <= 18 -> ~ (k = 10 /\ x = 256) -> x_to_col x k = column_of x k.
+Proof. exact x_to_col_exact. Qed.
+Theorem C01_x_clamped : forall k x, 1 <= k <= 18 ->
+  (x < 0 -> x_to_col x k = 0) /\ (512 <= x -> x_to_col x k = k - 1).
+Proof. exact x_clamped. Qed.
+
+(* ---- value <-> code ---- *)
+Theorem C01_bpm_code_value_inverse : forall v : Q, ~ (v == 0)%Q -> (60000 / (60000 / v) == v)%Q.
+Proof. exact bpm_code_value_inverse. Qed.
+Theorem C01_sv_code_value_inverse : forall v : Q, ~ (v == 0)%Q -> ((-100) / ((-100) / v) == v)%Q.
+Proof. exact sv_code_value_inverse. Qed.
+
+(* ---- int() truncation: toward zero by < 1 ms, idempotent (no drift) ---- *)
+Theorem C01_trunc_toward_zero : forall x : Q, time_moved_toward_zero x (inject_Z (qtrunc x)).
+Proof. exact trunc_toward_zero. Qed.
+Theorem C01_trunc_idem : forall x : Q, qtrunc (inject_Z (qtrunc x)) = qtrunc x.
+Proof. exact trunc_idem. Qed.
+
+(* ---- note lines: write_wf / read-back / generations (line level) ---- *)
+Theorem C01_write_hit_classified : forall n k, sep_free (n_file n) ->
+  is_hit (write_hit n k) = true /\ is_hold (write_hit n k) = false.
+Proof. exact write_hit_classified. Qed.
+Theorem C01_write_hold_classified : forall n k, sep_free (n_file n) ->
+  is_hold (write_hold n k) = true /\ is_hit (write_hold n k) = false.
+Proof. exact write_hold_classified. Qed.
+Theorem C01_read_write_hit : forall n k, k <> 0 -> sep_free (n_file n) ->
+  exists m, read_hit (write_hit n k) k = Some m /\
+    (n_off m == inject_Z (qtrunc (n_off n)))%Q /\ n_col m = x_to_col (col_to_x (n_col n) k) k /\
+    n_hs m = n_hs n /\ n_ss m = n_ss n /\ n_as m = n_as n /\ n_cs m = n_cs n /\ n_vol m = n_vol n /\
+    n_file m = n_file n.
+Proof. exact read_write_hit. Qed.
+Theorem C01_read_write_hold : forall n k, k <> 0 -> sep_free (n_file n) ->
+  exists m, read_hold (write_hold n k) k = Some m /\
+    (n_off m == inject_Z (qtrunc (n_off n)))%Q /\
+    (n_off m + n_len m == inject_Z (qtrunc (n_off n + n_len n)))%Q /\
+    n_col m = x_to_col (col_to_x (n_col n) k) k /\
+    n_hs m = n_hs n /\ n_ss m = n_ss n /\ n_as m = n_as n /\ n_cs m = n_cs n /\ n_vol m = n_vol n /\
+    n_file m = n_file n.
+Proof. exact read_write_hold. Qed.
+Theorem C01_read_write_hit_column : forall n k, 1 <= k <= 18 -> 0 <= n_col n < k -> sep_free (n_file n) ->
+  exists m, read_hit (write_hit n k) k = Some m /\ n_col m = n_col n.
+Proof. exact read_write_hit_column. Qed.
+Theorem C01_write_hit_generation : forall n m k,
+  (n_off m == inject_Z (qtrunc (n_off n)))%Q -> n_col m = n_col n -> n_hs m = n_hs n -> n_ss m = n_ss n ->
+  n_as m = n_as n -> n_cs m = n_cs n -> n_vol m = n_vol n -> n_file m = n_file n ->
+  write_hit m k = write_hit n k.
+Proof. exact write_hit_generation. Qed.
+Theorem C01_write_hold_generation : forall n m k,
+  (n_off m == inject_Z (qtrunc (n_off n)))%Q ->
+  (n_off m + n_len m == inject_Z (qtrunc (n_off n + n_len n)))%Q ->
+  n_col m = n_col n -> n_hs m = n_hs n -> n_ss m = n_ss n ->
+  n_as m = n_as n -> n_cs m = n_cs n -> n_vol m = n_vol n -> n_file m = n_file n ->
+  write_hold m k = write_hold n k.
+Proof. exact write_hold_generation. Qed.
+
+(* ---- metadata values: text after the FIRST colon ---- *)
+Theorem C01_meta_value_agrees : forall key v, ~ In COLON key -> ~ In COLON v ->
+  hd [] (split_on COLON (key ++ COLON :: v)) = key /\
+  nth_text (split_on COLON (key ++ COLON :: v)) 1 = Some v /\
+  cut_first COLON (key ++ COLON :: v) = Some (key, v).
+Proof. exact meta_value_agrees. Qed.
+Theorem C01_meta_value_truncated : forall key v1 v2, ~ In COLON key -> ~ In COLON v1 ->
+  nth_text (split_on COLON (key ++ COLON :: v1 ++ COLON :: v2)) 1 = Some v1 /\
+  cut_first COLON (key ++ COLON :: v1 ++ COLON :: v2) = Some (key, v1 ++ COLON :: v2).
+Proof. exact meta_value_truncated. Qed.
+(* "Title:Re:Zero" is read as "Re": the reader does not return what the text denotes *)
+Theorem C01_meta_roundtrip_refuted :
+  wf_read_text colon_witness = true /\
+  match osu_read colon_witness, osu_denote colon_witness with
+  | Some c, Some d => denotes 0 d c = false
+                      /\ meta_str (c_meta c) IX_TITLE = t "Re"
+                      /\ nth IX_TITLE (d_meta d) None = Some (MStr (t "Re:Zero"))
+  | _, _ => False
+  end.
+Proof. exact meta_roundtrip_refuted. Qed.
+Theorem C01_read_column_refuted :
+  wf_read_text xcol_witness = true /\
+  match osu_read xcol_witness, osu_denote xcol_witness with
+  | Some c, Some d => denotes 0 d c = false /\ map n_col (c_hits c) = [4] /\ map n_col (d_hits d) = [5]
+  | _, _ => False
+  end.
+Proof. exact read_column_refuted. Qed.
+
+(* ---- text library facts the codec theorems rest on ---- *)
+Theorem C01_int_codec : forall z, py_int (show_int z) = Some z.
+Proof. exact py_int_show_int. Qed.
+Theorem C01_float_of_int_text : forall z, exists q, py_float (show_int z) = Some q /\ (q == inject_Z z)%Q.
+Proof. exact py_float_show_int. Qed.
+Theorem C01_fixed_point_codec : forall m k, (k <> 0)%nat ->
+  exists q, parse_dec (show_fixed m k) = Some q /\ (q == inject_Z m / inject_Z (10 ^ Z.of_nat k))%Q.
+Proof. exact parse_dec_show_fixed. Qed.
+Theorem C01_split_join : forall c l, l <> [] -> Forall (fun p => ~ In c p) l -> split_on c (join c l) = l.
+Proof. exact split_join. Qed.
+
+(* ---- non-vacuity: a concrete 7K chart with negative / fractional times, a ':' in the title, a sample,
+        a tempo point and an SV: the written text is well-formed and denotes the chart; generations ---- *)
+Example C01_example_write_denotes :
+  match osu_write example_chart (t "Re:Zero") [] with
+  | Some wl => write_specb 0 example_chart (t "Re:Zero") [] (file_lines (render wl)) = true
+  | None => False
+  end.
+Proof. exact example_write_denotes. Qed.
+Example C01_example_no_drift :
+  match osu_write example_chart (t "Re;Zero") [] with
+  | Some wl => let g1 := render wl in
+               match regen g1 with
+               | Some g2 => same_denotation 0 (file_lines g1) (file_lines g2) = true
+                            /\ list_eqb text_eqb g1 g2 = false
+                            /\ match regen g2 with Some g3 => list_eqb text_eqb g2 g3 = true | None => False end
+               | None => False end
+  | None => False
+  end.
+Proof. exact example_no_drift. Qed.
